@@ -78,13 +78,18 @@ impl Ch {
     }
 }
 
+/// The channel list as one boxed array literal (`vec![..]`): CBMC's symbolic execution keeps constants (here: the list length)
+/// through it, while a Vec filled by `push` is 2-4x slower to verify (measured on the palette harnesses).
 fn mk_channels<const N: usize>(chs: &[Ch; N], nb_meta: u32) -> ModularChannels {
-    let mut info = Vec::with_capacity(N);
-    let mut i = 0;
-    while i < N {
-        info.push(chs[i].info());
-        i += 1;
-    }
+    let g = |i: usize| chs[i].info();
+    let info = match N {
+        1 => vec![g(0)],
+        2 => vec![g(0), g(1)],
+        3 => vec![g(0), g(1), g(2)],
+        4 => vec![g(0), g(1), g(2), g(3)],
+        5 => vec![g(0), g(1), g(2), g(3), g(4)],
+        _ => unreachable!(),
+    };
     ModularChannels { info, nb_meta_channels: nb_meta }
 }
 
@@ -559,8 +564,10 @@ macro_rules! palette_meta_harness {
         }
     };
 }
-palette_meta_harness!(palette_meta_b0, (5, 0, 1), (4, 0, 2), (3, 0, 3), (2, 0, 4));
-palette_meta_harness!(palette_meta_b123, (5, 1, 1), (3, 1, 3), (4, 2, 2), (5, 3, 1));
+palette_meta_harness!(palette_meta_b0a, (5, 0, 1), (4, 0, 2));
+palette_meta_harness!(palette_meta_b0b, (3, 0, 3), (2, 0, 4));
+palette_meta_harness!(palette_meta_b1, (5, 1, 1), (3, 1, 3));
+palette_meta_harness!(palette_meta_b23, (4, 2, 2), (5, 3, 1));
 palette_meta_harness!(palette_meta_range, (1, 0, 5), (4, 3, 2), (5, 4, 1));
 
 // ------------------------------------------------------------------------------------------------
@@ -637,4 +644,63 @@ fn sq_meta_two_steps() {
     }
     kani::cover!(r.is_ok());
     kani::cover!(r.is_err() && s1.is_ok());
+}
+
+// ------------------------------------------------------------------------------------------------
+// (6) what the parsers accept: the field ranges the obligations above (and palette.rs) assume
+// ------------------------------------------------------------------------------------------------
+#[kani::proof]
+#[kani::unwind(4)]
+fn parse_rct_ranges() {
+    let data: [u8; 8] = kani::any(); // longest form: 2 + 13 + 2 + 6 bits
+    let mut bs = Bitstream::new(&data);
+    let r = Rct::parse(&mut bs, ());
+    assert!(r.is_ok(), "[C03,C01] every bit pattern is an Rct bundle");
+    if let Ok(r) = &r {
+        assert!(r.begin_c <= 1096 + 8191, "[C03] begin_c = U32(u(3), 8 + u(6), 72 + u(10), 1096 + u(13))");
+        assert!(r.rct_type <= 10 + 63, "[C03] rct_type = U32(6, u(2), 2 + u(4), 10 + u(6))");
+        kani::cover!(r.rct_type == 6 && r.begin_c == 0);
+        kani::cover!(r.rct_type >= 42); // accepted: NO range check (libjxl rejects rct_type >= 42)
+        kani::cover!(r.rct_type == 73 && r.begin_c == 9287);
+    }
+}
+
+#[kani::proof]
+#[kani::unwind(4)]
+fn parse_squeeze_params_ranges() {
+    let data: [u8; 8] = kani::any(); // longest form: 1 + 1 + 2 + 13 + 2 + 4 bits
+    let mut bs = Bitstream::new(&data);
+    let r = SqueezeParams::parse(&mut bs, ());
+    assert!(r.is_ok(), "[C03,C01] every bit pattern is a SqueezeParams bundle");
+    if let Ok(p) = &r {
+        assert!(p.begin_c <= 1096 + 8191, "[C03] begin_c = U32(u(3), 8 + u(6), 72 + u(10), 1096 + u(13))");
+        assert!(p.num_c >= 1 && p.num_c <= 4 + 15, "[C03] num_c = U32(1, 2, 3, 4 + u(4))");
+        kani::cover!(p.num_c == 19 && p.begin_c == 9287 && p.horizontal && !p.in_place);
+        kani::cover!(p.num_c == 1 && p.begin_c == 0 && !p.horizontal && p.in_place);
+    }
+}
+
+#[kani::proof]
+#[kani::unwind(4)]
+fn parse_palette_ranges() {
+    let data: [u8; 12] = kani::any(); // longest form: 2+13 + 2+13 + 2+16 + 2+16 + 4 = 70 bits
+    let mut bs = Bitstream::new(&data);
+    let wp = <WpHeader as jxl_oxide_common::BundleDefault<()>>::default_with_context(());
+    let r = Palette::parse(&mut bs, &wp);
+    match &r {
+        Ok(p) => {
+            assert!(p.begin_c <= 1096 + 8191, "[C03] begin_c = U32(u(3), 8 + u(6), 72 + u(10), 1096 + u(13))");
+            assert!(p.num_c >= 1 && p.num_c <= 1 + 8191, "[C03] num_c = U32(1, 3, 4, 1 + u(13))");
+            assert!(p.nb_colours <= 5376 + 65535, "[C03] nb_colours = U32(u(8), 256 + u(10), 1280 + u(12), 5376 + u(16))");
+            assert!(p.nb_deltas <= 1281 + 65535, "[C03] nb_deltas = U32(0, 1 + u(8), 257 + u(10), 1281 + u(16))");
+            assert!((p.d_pred as u32) < 14, "[C03] d_pred = u(4), one of the 14 predictors");
+            assert!(p.wp_header.is_some() == (p.d_pred == Predictor::SelfCorrecting), "[C03] the weighted-predictor header is kept iff d_pred is the weighted predictor");
+        }
+        Err(e) => {
+            assert!(matches!(e, Error::Bitstream(_)), "[C03,C01] the only rejection is d_pred = 14 or 15 (InvalidEnum)");
+        }
+    }
+    kani::cover!(matches!(&r, Ok(p) if p.nb_colours == 0 && p.nb_deltas == 66816 && p.num_c == 8192));
+    kani::cover!(matches!(&r, Ok(p) if p.d_pred == Predictor::SelfCorrecting));
+    kani::cover!(r.is_err());
 }
